@@ -68,27 +68,36 @@ sim_format_name (pixman_format_code_t f)
 static pixman_indexed_t palettes[N_PALETTES][2][4];    /* [k][is_rgb][depth 1,4,8 -> 0,1,2] */
 static int palettes_ready;
 
+/* A palette pixman can work with is a consistent one: looking a palette
+ * colour up through ent[] gives back its own index (test/utils.c's
+ * initialize_palette guarantees the same), otherwise even reading a pixel
+ * and writing it back changes it. */
 static void
 build_palette (pixman_indexed_t *pal, uint32_t depth, int is_rgb, uint64_t seed)
 {
-    uint32_t i, mask = (1u << depth) - 1;
+    uint32_t i, mask = (1u << depth) - 1, count = mask + 1;
     uint64_t x = seed;
+    uint32_t off = (uint32_t)(sim_splitmix (&x) & 0x7fff);
     memset (pal, 0, sizeof *pal);
     for (i = 0; i < 32768; ++i)
 	pal->ent[i] = (pixman_index_type)(sim_splitmix (&x) & mask);
-    for (i = 0; i < mask + 1; ++i)
+    for (i = 0; i < count; ++i)
     {
-	uint32_t rgba24 = (uint32_t)sim_splitmix (&x) & 0xffffff;
-	uint32_t r = (rgba24 >> 16) & 0xff, g = (rgba24 >> 8) & 0xff, b = rgba24 & 0xff;
-	/* distinct colours: fold the index into the low bits */
-	if (depth == 8) { b = (b & ~0xfu) | (i & 0xf); g = (g & ~0xfu) | (i >> 4); }
-	else { b = (b & ~0xfu) | (i & 0xf); }
-	rgba24 = (r << 16) | (g << 8) | b;
-	pal->rgba[i] = 0xff000000u | rgba24;
+	uint32_t r, g, b;
+	uint32_t low = (uint32_t)sim_splitmix (&x);
 	if (is_rgb)
-	    pal->ent[((r << 7) & 0x7c00) | ((g << 2) & 0x03e0) | ((b >> 3) & 0x001f)] = (pixman_index_type)i;
+	{
+	    uint32_t key = (i * 127u + off) & 0x7fff;         /* injective for i < 258 */
+	    r = ((key >> 10) & 31) << 3 | (low & 7); g = ((key >> 5) & 31) << 3 | ((low >> 3) & 7); b = (key & 31) << 3 | ((low >> 6) & 7);
+	    pal->ent[key] = (pixman_index_type)i;
+	}
 	else
+	{
+	    uint32_t v = depth == 8 ? ((i * 77u + off) & 0xff) : depth == 4 ? (((i * 7u + off) & 15) * 17) : (((i + off) & 1) * 255);
+	    r = g = b = v;
 	    pal->ent[((r * 153 + g * 301 + b * 58) >> 2) & 0x7fff] = (pixman_index_type)i;
+	}
+	pal->rgba[i] = 0xff000000u | (r << 16) | (g << 8) | b;
     }
 }
 
@@ -155,8 +164,10 @@ check_access (const void *p, int size, const char *what)
     {
 	arena_buf_t *b = arena_find (p);
 	m->acc_violation = 1;
-	snprintf (m->acc_detail, sizeof m->acc_detail, "%s of %d bytes %s during op %d",
-		  what, size, b ? "inside the storage of a non-participating image" : "outside any image storage", m->cur_op);
+	snprintf (m->acc_detail, sizeof m->acc_detail, "%s of %d bytes %s during op %d (offset %ld from the start of the %zu-byte storage of slot %d)",
+		  what, size, b ? "inside the storage of a non-participating image" : "outside any image storage", m->cur_op,
+		  m->n_active ? (long)((const uint8_t *)p - m->img[m->active[0]].lowest) : 0L,
+		  m->n_active ? m->img[m->active[0]].storage : (size_t)0, m->n_active ? m->active[0] : -1);
     }
 ok:
     if (machine_accessor_hook) machine_accessor_hook ();
@@ -1539,4 +1550,42 @@ machine_replica (machine_t *m, int slot, int share, arena_buf_t **out_buf,
     img = replica_one (m, slot, share, out_buf, 1, out_alpha, out_alpha_buf);
     machine_current = prev;
     return img;
+}
+
+/* Clear the bits of a slot's pixels that carry no information (unused x bits;
+ * own alpha bits when an alpha map is attached; colour bits of an image that
+ * serves as alpha map).  Implementations legitimately leave different junk
+ * there; a caller that later copies the raw bits (pixman_blt) would spread
+ * the junk into defined bits, so worlds that compare executions clear it on
+ * every side after each drawing op. */
+void
+machine_normalise_slot (machine_t *m, int slot)
+{
+    mslot_t *s;
+    uint32_t mask;
+    int bpp, x, y, st;
+    if (slot < 0) return;
+    s = &m->img[slot];
+    if (!s->used || s->kind != MOP_BITS || !s->lowest || !s->img) return;
+    bpp = PIXMAN_FORMAT_BPP (s->fmt);
+    if (bpp > 32) return;
+    mask = machine_pixmask (m, slot);
+    if (mask == (bpp == 32 ? 0xffffffffu : ((1u << bpp) - 1))) return;
+    st = s->stride < 0 ? -s->stride : s->stride;
+    for (y = 0; y < s->h; y++)
+    {
+	uint8_t *row = s->lowest + (long)y * st;
+	for (x = 0; x < s->w; x++)
+	{
+	    switch (bpp)
+	    {
+	    case 32: ((uint32_t *)row)[x] &= mask; break;
+	    case 16: ((uint16_t *)row)[x] &= (uint16_t)mask; break;
+	    case 8: row[x] &= (uint8_t)mask; break;
+	    case 24: row[3 * x] &= (uint8_t)mask; row[3 * x + 1] &= (uint8_t)(mask >> 8); row[3 * x + 2] &= (uint8_t)(mask >> 16); break;
+	    case 4: if (x & 1) row[x >> 1] &= (uint8_t)(0x0f | (mask << 4)); else row[x >> 1] &= (uint8_t)(0xf0 | mask); break;
+	    case 1: if (!(mask & 1)) row[x >> 3] &= (uint8_t)~(1u << (x & 7)); break;
+	    }
+	}
+    }
 }
